@@ -90,6 +90,15 @@ func registerConcStubs(e *Engine) {
 		t[1] = now
 		return t
 	})
+	e.reg("time.Unix", func(fr *frame, args []value) value {
+		t := zero(fr.fn.Signature.Results().At(0).Type()).(structure)
+		t[1] = fr.ex.asInt64(args[0])*1e9 + fr.ex.asInt64(args[1])
+		return t
+	})
+	e.reg("(time.Time).UTC", func(fr *frame, args []value) value { return args[0] })
+	e.reg("(time.Time).Unix", func(fr *frame, args []value) value { return timeExt(args[0]) / 1e9 })
+	e.reg("(time.Time).UnixNano", func(fr *frame, args []value) value { return timeExt(args[0]) })
+	e.reg("(time.Time).Nanosecond", func(fr *frame, args []value) value { return int(timeExt(args[0]) % 1e9) })
 	e.reg("time.Since", func(fr *frame, args []value) value {
 		return concreteOf(uint64(fr.ex.clockNs()-timeExt(args[0])), types.Int64)
 	})
